@@ -66,6 +66,7 @@ type TxSpec struct {
 	MType   byte     `json:"mt,omitempty"`
 	Stake   uint64   `json:"st,omitempty"`
 	Acct    int      `json:"ac,omitempty"`
+	AcctHex string   `json:"ach,omitempty"` // apply: explicit miner account (e.g. a contract address)
 	Amount  string   `json:"am,omitempty"`
 	Prog    int      `json:"p,omitempty"`
 	Gas     uint64   `json:"g,omitempty"`
@@ -131,6 +132,9 @@ func (s TxSpec) Build() *types.Transaction {
 			m.VrfPublicKey = []byte{4, 5, 6, byte(s.Miner)}
 			if s.Acct > 0 {
 				m.Account = common.FromHex(Account(s.Acct - 1))
+			}
+			if s.AcctHex != "" {
+				m.Account = common.FromHex(s.AcctHex)
 			}
 		case "addstake":
 			typ = types.TransactionTypeMinerAdd
